@@ -776,3 +776,95 @@ Proof.
   - eexists _, _. split; [exact (invalid_error_status_is_500 h m i l e s Hget Hout Hs Hv)|]. repeat split; reflexivity.
   - eexists _, _. split; [exact (invalid_success_status_is_500 h m i Hout (fun _ => Hid) Hv)|]. repeat split; reflexivity.
 Qed.
+
+(* ------------------------------------------------------------------------------------------------ filters *)
+
+Definition fresult_ok (r : fresult) : bool := match r with FOk => true | _ => false end.
+(* a filter none of whose hooks fails (it may add context values and response headers) *)
+Definition passing (f : filter) : bool := fresult_ok (f_pre f) && fresult_ok (f_post f).
+
+Lemma first_err_all_ok : forall l, forallb fresult_ok l = true -> first_err l = None.
+Proof.
+  induction l as [|r t IH]; intros Hall; [reflexivity|].
+  simpl in Hall. apply andb_true_iff in Hall. destruct Hall as [Hr Ht].
+  destruct r; try discriminate Hr. simpl. apply IH. exact Ht.
+Qed.
+
+Lemma serve_is_tail : forall h m d i, serve h m d i = serve_tail h (receive_handler m d i).
+Proof.
+  intros h m d i. unfold serve, serve_tail.
+  destruct (receive_handler m d i) as [[[[b e] s] idh] inv]. reflexivity.
+Qed.
+
+Lemma serve_f_nil : forall h m d i, serve_f h [] m d i = serve h m d i.
+Proof.
+  intros h m d i. rewrite serve_is_tail. unfold serve_f, receive_f, run_pre_filters, run_post_filters. simpl.
+  destruct (receive_handler m d i) as [[[[b e] s] idh] inv]. destruct e; reflexivity.
+Qed.
+
+Lemma call_f_nil : forall h m d i, call_f h [] m d i = call h m d i.
+Proof. intros h m d i. unfold call_f, call. rewrite serve_f_nil. reflexivity. Qed.
+
+Lemma passing_pre : forall fs, forallb passing fs = true -> run_pre_filters fs = None.
+Proof.
+  intros fs Hall. unfold run_pre_filters. apply first_err_all_ok.
+  induction fs as [|f t IH]; [reflexivity|].
+  simpl in Hall. apply andb_true_iff in Hall. destruct Hall as [Hf Ht].
+  unfold passing in Hf. apply andb_true_iff in Hf. destruct Hf as [Hpre _].
+  simpl. rewrite Hpre. simpl. apply IH. exact Ht.
+Qed.
+
+Lemma forallb_rev : forall (A : Type) (p : A -> bool) (l : list A), forallb p (rev l) = forallb p l.
+Proof.
+  intros A p l. induction l as [|a t IH]; [reflexivity|].
+  simpl. rewrite forallb_app. simpl. rewrite IH. rewrite andb_true_r. apply andb_comm.
+Qed.
+
+Lemma passing_post : forall fs, forallb passing fs = true -> run_post_filters fs = None.
+Proof.
+  intros fs Hall. unfold run_post_filters. apply first_err_all_ok.
+  rewrite <- (forallb_rev _ passing) in Hall.
+  induction (rev fs) as [|f t IH]; [reflexivity|].
+  simpl in Hall. apply andb_true_iff in Hall. destruct Hall as [Hf Ht].
+  unfold passing in Hf. apply andb_true_iff in Hf. destruct Hf as [_ Hpost].
+  simpl. rewrite Hpost. simpl. apply IH. exact Ht.
+Qed.
+
+(* filters whose hooks do not fail leave the reply (and the resource's invocation) exactly as it is without filters *)
+Theorem passing_filters_transparent : forall h fs m d i, forallb passing fs = true -> call_f h fs m d i = call h m d i.
+Proof.
+  intros h fs m d i Hall. unfold call_f, call. rewrite serve_is_tail.
+  unfold serve_f, receive_f. rewrite (passing_pre fs Hall), (passing_post fs Hall).
+  destruct (receive_handler m d i) as [[[[b e] s] idh] inv]. destruct e; reflexivity.
+Qed.
+
+(* a failure of the call (the resource's error response, any other error it returned, a recovered panic, a request that does
+   not decode) is delivered exactly as without filters, WHATEVER the PostRequest hooks would return: they do not run *)
+Theorem failure_not_masked_by_filters : forall h fs m d i b e s idh inv,
+  run_pre_filters fs = None -> receive_handler m d i = (b, Some e, s, idh, inv) -> call_f h fs m d i = call h m d i.
+Proof.
+  intros h fs m d i b e s idh inv Hpre Hrec. unfold call_f, call. rewrite serve_is_tail.
+  unfold serve_f, receive_f. rewrite Hpre, Hrec. reflexivity.
+Qed.
+
+(* ... in particular for every failing outcome of the implementation *)
+Theorem resource_failure_not_masked : forall h fs m i,
+  run_pre_filters fs = None ->
+  (exists l, i_outcome i = OErrResp l) \/ (exists msg, i_outcome i = OPlain msg) \/ (exists msg, i_outcome i = OPanic msg) ->
+  call_f h fs m RqOk i = call h m RqOk i.
+Proof.
+  intros h fs m i Hpre Hout.
+  assert (Hsome : exists b e s idh inv, receive_handler m RqOk i = (b, Some e, s, idh, inv)).
+  { unfold receive_handler. rewrite (decode_ok m).
+    unfold reg_closure.
+    destruct Hout as [[l Ho] | [[msg Ho] | [msg Ho]]]; rewrite Ho; unfold adapter_wrap; simpl.
+    - destruct (reg_adapter (m_kind m)); simpl; repeat eexists.
+    - destruct (reg_adapter (m_kind m)); simpl; repeat eexists.
+    - repeat eexists. }
+  destruct Hsome as (b & e & s & idh & inv & Hrec).
+  exact (failure_not_masked_by_filters h fs m RqOk i b e s idh inv Hpre Hrec).
+Qed.
+
+(* a failing PreRequest hook answers the request: the implementation is not invoked *)
+Theorem pre_failure_not_invoked : forall h fs m d i e, run_pre_filters fs = Some e -> snd (serve_f h fs m d i) = false.
+Proof. intros h fs m d i e Hpre. unfold serve_f, receive_f. rewrite Hpre. reflexivity. Qed.
